@@ -204,6 +204,8 @@ def run_C04(ctx, rep):
 
 
 def run_C15(ctx, rep):
+    # the shadowing check collects the variables of a pattern with the pattern walkers of the macro crate: they reach every binding
+    macro_rules.check_M3(ctx, rep)
     # the converse clause: every well-formed program of the corpus compiles
     failed = ctx.meta.get('corpus_failed') or []
     rep.inst('W.corpus', 'corpus families rejected by the macros: %s' % (failed or 'none'))
@@ -211,7 +213,7 @@ def run_C15(ctx, rep):
         rep.viol('W', 'corpus family ' + m, 'well-formed-rejected',
                  'well-formed programs of the corpus no longer compile: ' + (ctx.meta.get('corpus_first_error', {}).get(m) or 'see stderr'))
     n = witness_rules.run_witnesses(ctx, rep, ctx.tier)
-    rep.floor('W', 180 if ctx.tier == 'quick' else 850, 'compile witnesses')
+    rep.floor('W', 185 if ctx.tier == 'quick' else 885, 'compile witnesses')
     return {'cov': {'exhaustive': True, 'witness_tier': ctx.tier}}
 
 
